@@ -13,7 +13,7 @@ for id in "$@"; do
   VERIF_REPO="$SCR/repo" "$HERE/check" "$id" --tier "${TIER:-quick}" --no-evidence ${CASES:+--cases $CASES} > "$SCR/out.$id" 2>&1
   rc=$?
   echo "MUTANT $(basename "$PATCH") check=$id exit=$rc $(grep -m1 -A1 '^VIOLATION' "$SCR/out.$id" | tr '\n' ' ')"
-  [ $rc -eq 2 ] && tail -20 "$SCR/out.$id"
+  [ $rc -eq 2 ] && grep -E "HARNESS|Error|error" "$SCR/out.$id" | head -5
   [ $rc -ne 1 ] && rc_all=1
 done
 rm -rf "$SCR"
